@@ -814,6 +814,11 @@ class COOSubjac(SparseSubjac):
         dtype : dtype
             The type to set the subjacobian to.
         """
+        if isinstance(self.info['val'], coo_matrix):
+            # a scipy COO matrix keeps its values in its data attribute
+            super().set_dtype(dtype)
+            return
+
         if dtype.kind == self.info['val'].dtype.kind:
             return
 
